@@ -116,7 +116,11 @@ def required(tier):
             req["minq_%d_zero" % t] = 1500
     if tier == "thorough":
         req = {n: v * k for n, v in req.items()}
-        req.update({"phred_fn_cells_checked": 500000, "phred_fn_merged_cells": 80000, "phred_prog_rows_checked": 80000})
+        req.update({"phred_fn_cells_checked": 500000, "phred_fn_merged_cells": 80000, "phred_prog_rows_checked": 80000,
+                    "phred_prog_dedup_columns_matched": 20000, "phred_prog_dedup_groups_with_unequal_qualities": 5000})
+    else:
+        req.update({"phred_fn_cells_checked": 20000, "phred_fn_merged_cells": 2000, "phred_prog_rows_checked": 3000,
+                    "phred_prog_dedup_columns_matched": 1000, "phred_prog_dedup_groups_with_unequal_qualities": 200})
     return req
 
 
@@ -217,6 +221,23 @@ def classify(obs, alleles):
     if b in alleles:
         return "call", alleles.index(b), b
     return "other", -1, b
+
+
+def match_points_to_intervals(points, intervals):
+    """None if the points can be matched one-to-one with intervals containing them (greedy, optimal for intervals on a line)."""
+    if len(points) != len(intervals):
+        return "%d probabilities for %d reads" % (len(points), len(intervals))
+    free = sorted(((lo * (1 - TOL), hi * (1 + TOL)) for lo, hi in intervals), key=lambda iv: iv[1])
+    for x in sorted(points):
+        pick = None
+        for i, (lo, hi) in enumerate(free):
+            if lo <= x <= hi:
+                pick = i
+                break
+        if pick is None:
+            return "probability %r (expanded %s) fits no remaining read; per-read ranges %s" % (x, sorted(points)[:6], sorted(intervals)[:6])
+        free.pop(pick)
+    return None
 
 
 def call_row(row, alleles):
@@ -920,6 +941,7 @@ def run_prog(pre, cfg, field, layout, argv, err, phred, col, found, pool_info):
                 else:
                     got = Counter()
                     bad = None
+                    obs_p = {}
                     for r, c in zip(rd, cnt):
                         key = []
                         for j in range(n):
@@ -941,8 +963,32 @@ def run_prog(pre, cfg, field, layout, argv, err, phred, col, found, pool_info):
                         got[tuple(key)] += int(c)
                         if c > 1:
                             col.count("prog_dedup_with_count_gt1")
+                        if phred:
+                            for j in range(n):
+                                if key[j] >= 0:
+                                    obs_p.setdefault((tuple(key), j), []).extend([float(r[j][key[j]])] * int(c))
                     if phred:
                         col.count("phred_prog_rows_checked", len(rows))
+                        if got == want and calls_ok and not bad:
+                            # the (row, count) pairs must expand to the per-read encodings: within each group of reads with equal
+                            # calls, the correct-call probabilities of every SNV column must be matchable one-to-one with the
+                            # intervals the reads' own base qualities allow (a point unless agreeing mates were merged)
+                            want_iv = {}
+                            for rr in rows:
+                                k2 = call_row(rr, alleles)
+                                for j in range(n):
+                                    if k2[j] >= 0:
+                                        qs = [q for _, q in rr[j]]
+                                        want_iv.setdefault((k2, j), []).append(((1 - err) * (1 - 10 ** (-min(qs) / 10)), (1 - err) * (1 - 10 ** (-sum(qs) / 10))))
+                            for kk, ivs in want_iv.items():
+                                col.count("phred_prog_dedup_columns_matched")
+                                if len(ivs) > 1 and len({iv for iv in ivs}) > 1:
+                                    col.count("phred_prog_dedup_groups_with_unequal_qualities")
+                                msg = match_points_to_intervals(obs_p.get(kk, []), ivs)
+                                if msg:
+                                    found.append(("deduplication-loses-base-qualities", "%s: with --use-base-phred-scores the %d reads with calls %s: read_dists x read_counts at SNV %d do not expand to the per-read probabilities: %s"
+                                                  % (where, len(ivs), list(kk[0]), kk[1], msg)))
+                                    break
                     if bad:
                         found.append(("probability-encoding-wrong", "%s: read_dists (base error rate %r%s): %s" % (where, err, ", base qualities used" if phred else "", bad)))
                     if got != want and calls_ok and not bad:
@@ -1169,7 +1215,7 @@ def run_dataset_case(tier, seed, shard, index, col, workname):
         thorough = tier == "thorough"
         g = shard * 1000 + index
         err = DEFAULT_ERR if rng.random() < 0.6 else float(rng.choice([0.0005, 0.01, 0.05]))
-        phred = thorough
+        phred = thorough or g % 2 == 0
 
         # ---- function level
         try:
